@@ -439,15 +439,19 @@ def run_check(mod, tier, seed, replay=None):
             # (no cache handing out the same object twice).  Opt-in: mutate_live(obj) -> True if it modified obj.
             if ok_before and hasattr(mod, "mutate_live"):
                 try:
-                    if mod.mutate_live(obj1, c1):
+                    mutated = mod.mutate_live(obj1, c1)
+                except Exception:
+                    mutated = False
+                if mutated:
+                    try:
                         obj3, canon3 = mod.impl_live(c1)
                         again = canon3(obj3)
-                        stats["evaluations"] += 1
-                        if canon(again) != canon(before):
-                            failures.append({"case": {"op": "history_mutate", "first": c1}, "impl": {"first_call": before, "same_call_after_result_was_modified": again},
-                                             "expected": exp1, "key": "history:same-call-differs-after-its-earlier-result-was-modified"})
-                except Exception:
-                    pass
+                    except Exception as e:      # the call returned before: raising now is a difference too
+                        again = "E:" + type(e).__name__
+                    stats["evaluations"] += 1
+                    if canon(again) != canon(before):
+                        failures.append({"case": {"op": "history_mutate", "first": c1}, "impl": {"first_call": before, "same_call_after_result_was_modified": again},
+                                         "expected": exp1, "key": "history:same-call-differs-after-its-earlier-result-was-modified"})
     if model_vs_spec:
         raise Machinery("Lean spec and Python oracle disagree (machinery error): " + canon(model_vs_spec[0])[:1500])
 
